@@ -795,6 +795,25 @@ def perturb(split, rng, other=None):
         if pairs:
             split.dup_imports.add(rng.choice(pairs))
             applied.append("duplicate_import")
+    if rng.random() < 0.2:
+        # a private constant that has the name of a function of its own module or
+        # of an imported one (constants and functions live in separate name spaces)
+        cands = []
+        for it in P.items:
+            if it.kind == "const" and it.name not in split.pub and it.body.startswith("const %s: i32" % it.name):
+                m = split.assign[it.name]
+                taken = split.renames.get(m, {})
+                if it.name in taken:
+                    continue
+                vis = split.visible(m)
+                fns = sorted(f.name for f in P.items if f.kind == "fn" and f.name != "main" and f.name not in taken and
+                             f.name not in taken.values() and (split.assign[f.name] == m or f.name in vis))
+                if fns:
+                    cands.append((m, it.name, fns))
+        if cands:
+            m, c, fns = rng.choice(cands)
+            split.renames.setdefault(m, {})[c] = rng.choice(fns)
+            applied.append("const_named_like_fn")
     return applied
 
 
